@@ -93,19 +93,33 @@ func (e *Engine) VerifyFunc(con *Contract, workdir string, timeoutS int, all boo
 		}
 		sig := fn.Signature
 		idx := 0
+		pnames := con.ParamNames
+		if con.Implements != "" && len(pnames) > 0 {
+			pnames = pnames[1:]
+		}
+		nameAt := func(i int, def string) string {
+			if i < len(pnames) && pnames[i] != "" {
+				return pnames[i]
+			}
+			return def
+		}
 		if con.Implements != "" {
-			x.entryEnv["self"] = TV(x.w.Fresh("in.self", SInt))
+			if fn.Parent() == nil && len(fn.FreeVars) == 0 {
+				x.entryEnv["self"] = TV(x.fnTerm(&SV{Fn: fn}))
+			} else {
+				x.entryEnv["self"] = TV(x.w.Fresh("in.self", SInt))
+			}
 		}
 		if sig.Recv() != nil {
 			n := sig.Recv().Name()
 			if n == "" || n == "_" {
 				n = "recv"
 			}
-			args = append(args, bind(n, sig.Recv().Type(), idx))
+			args = append(args, bind(nameAt(idx, n), sig.Recv().Type(), idx))
 			idx++
 		}
 		for i := 0; i < sig.Params().Len(); i++ {
-			args = append(args, bind(sig.Params().At(i).Name(), sig.Params().At(i).Type(), idx))
+			args = append(args, bind(nameAt(idx, sig.Params().At(i).Name()), sig.Params().At(i).Type(), idx))
 			idx++
 		}
 		var free []*SV
